@@ -305,14 +305,18 @@ def run_case(case, ctx):
                             bad = {"extract modified the archive": True}
                     if bad is None:
                         # again, over the earlier results: must succeed and rewrite them
-                        victim = os.path.normpath(next(iter(want)))
-                        open(os.path.join(root, victim), "wb").write(b"stale")
+                        # every earlier result is replaced by something else: shorter for one, longer than the member for the others
+                        for n_, p_ in enumerate(want):
+                            open(os.path.join(root, os.path.normpath(p_)), "wb").write(b"x" if n_ == 1 else b"stale, and longer than what the archive holds " * 40)
                         st2, out2, err2 = launch(tool, la, ["-x"] + vf + into + [rel], root)
                         again = snapshot(root)
                         if st2 != 0:
                             bad = {"second extraction failed": [st2, err2[-300:]]}
-                        elif again.get(victim) != want[next(iter(want))]:
-                            bad = {"second extraction did not overwrite": victim}
+                        else:
+                            for p_, c_ in want.items():
+                                if again.get(os.path.normpath(p_)) != c_:
+                                    bad = {"second extraction did not overwrite": os.path.normpath(p_), "len": [len(again.get(os.path.normpath(p_)) or b""), len(c_)]}
+                                    break
         sig = [tool, la, sc] + ([str(case.get("into"))] if "into" in case else []) + (["into:" + case["into_pos"]] if case.get("into_pos") else [])
         skipped = dis == "unmodelled"
         if skipped:
